@@ -236,7 +236,7 @@ def a5(ctx):
     yield Ob(key_of("C03-A5", b.path, "vec-alignment"), ok, "AlignedVec::new(cap, %s)" % (short(av[0]["args"][1], 80) if av else "?"), b.loc())
 
 
-@rule("C03-A7", "C03", 3, "the Vec backing keeps the alignment it was created with: every Layout the crate builds for the global allocator is built inside AlignedVec, from the "
+@rule("C03-A8", "C03", 3, "the Vec backing keeps the alignment it was created with: every Layout the crate builds for the global allocator is built inside AlignedVec, from the "
       "vec's own (cap, align) or - in AlignedVec::new - from the (capacity, align) the new vec records; no other function builds a Layout or calls realloc / alloc "
       "(a block resized or re-created under a smaller alignment moves the base of the arena off the boundary every aligned offset is computed against: C14's "
       "align_to and C03's aligned allocations return misaligned pointers)", also=("C14", "C18"))
@@ -262,8 +262,8 @@ def a7(ctx):
                 own = bool(m1 and m2 and m1.group(1) == m2.group(1))
                 recorded = b.path == "common::AlignedVec::new" and len(rets) == 1 and tag(rets[0]) == "struct" and struct_get(rets[0], "cap") == size and struct_get(rets[0], "align") == al
                 ok = own or recorded
-            yield Ob(key_of("C03-A7", b.path, "layout-from-own-cap-align"), ok, "Layout(%s, %s) in %s" % (short(e["args"][0], 40), short(e["args"][1], 60), b.path), ctx.loc(e))
-    yield Ob(key_of("C03-A7", "common::AlignedVec", "layout-sites-seen"), n >= 2, "%d Layout construction site(s) (new, layout) - positive control" % n, None, trivial=True)
+            yield Ob(key_of("C03-A8", b.path, "layout-from-own-cap-align"), ok, "Layout(%s, %s) in %s" % (short(e["args"][0], 40), short(e["args"][1], 60), b.path), ctx.loc(e))
+    yield Ob(key_of("C03-A8", "common::AlignedVec", "layout-sites-seen"), n >= 2, "%d Layout construction site(s) (new, layout) - positive control" % n, None, trivial=True)
 
 
 @rule("C03-A6", "C03", 2, "file-backed arenas: the mapping offset is checked against the alignment the arena promises (memmap2 returns page boundary + offset % page, so the base "
